@@ -801,6 +801,8 @@ class Lemmas:
             from ..core import tka as tkamod
             T = tkamod.TKA(self.P)
             self._tka_prims = T.verify_primitives(self.chk)
+            from . import eqrules
+            eqrules.require(self.chk, self.P, ["lexer::token::TokenKind"], "`tok.kind == K` / `at(K)` / `expect(K)` test the token kind itself")
             self._tka_rounds = T.run(["parsed_test_case::ParsedTestCase::parse"])
             self._tka = T
         return self._tka
